@@ -8,9 +8,144 @@ package main
 // The correspondence run checks the answer: a wrong guess shows as model-vs-implementation mismatches
 // on the trailing-separator cases of C12.
 
-import "fmt"
+import (
+	"fmt"
+	"go/ast"
+	"go/token"
+)
 
-func init() { extraConsts = append(extraConsts, copyFileConsts) }
+func init() { extraConsts = append(extraConsts, copyFileConsts, unionWriteConsts) }
+
+// unionfile_write_checks_base_count: UnionFile.Write / WriteAt / WriteString write to the Layer handle and then
+// to the Base handle.  Two shapes of the base call are known:
+//
+//	0 (the tree as pinned)   _, err = f.Base.M(...)                      the base's byte count is discarded: a base
+//	                                                                     that takes fewer bytes and reports no error
+//	                                                                     goes unnoticed (C12 partial-copy:*:D.HWrite)
+//	1 (repaired)             nb, err = f.Base.M(...)
+//	                         if err == nil && nb < n { n, err = nb, io.ErrShortWrite }
+//
+// The switch is 1 iff ALL THREE methods have the second shape, 0 iff all three have the first one.  A mixture, or
+// any other shape of that statement, is an error (the model has one switch for the three methods: Model/Union.v
+// union_write_result).
+func unionWriteShape(fd *ast.FuncDecl, method string) (int64, error) {
+	isBaseCall := func(e ast.Expr) bool {
+		ce, ok := e.(*ast.CallExpr)
+		if !ok {
+			return false
+		}
+		se, ok := ce.Fun.(*ast.SelectorExpr)
+		if !ok || se.Sel.Name != method {
+			return false
+		}
+		in, ok := se.X.(*ast.SelectorExpr)
+		return ok && in.Sel.Name == "Base"
+	}
+	isIdent := func(e ast.Expr, name string) bool {
+		id, ok := e.(*ast.Ident)
+		return ok && id.Name == name
+	}
+	isShortWrite := func(e ast.Expr) bool {
+		se, ok := e.(*ast.SelectorExpr)
+		return ok && se.Sel.Name == "ErrShortWrite" && isIdent(se.X, "io")
+	}
+	shape, seen := int64(-1), 0
+	var bad error
+	ast.Inspect(fd, func(n ast.Node) bool {
+		blk, ok := n.(*ast.BlockStmt)
+		if !ok {
+			return true
+		}
+		for i, st := range blk.List {
+			as, ok := st.(*ast.AssignStmt)
+			if !ok || len(as.Rhs) != 1 || !isBaseCall(as.Rhs[0]) {
+				continue
+			}
+			seen++
+			if len(as.Lhs) != 2 || as.Tok != token.ASSIGN || !isIdent(as.Lhs[1], "err") {
+				bad = fmt.Errorf("unionFile.go UnionFile.%s: the base call is not assigned to (count, err)", method)
+				continue
+			}
+			cnt, ok := as.Lhs[0].(*ast.Ident)
+			if !ok || cnt.Name == "n" {
+				bad = fmt.Errorf("unionFile.go UnionFile.%s: unknown destination of the base call's count", method)
+				continue
+			}
+			if cnt.Name == "_" {
+				shape = 0
+				continue
+			}
+			// the next statement must be: if err == nil && cnt < n { n, err = cnt, io.ErrShortWrite }
+			found := false
+			if i+1 < len(blk.List) {
+				if is, ok := blk.List[i+1].(*ast.IfStmt); ok && is.Else == nil && is.Init == nil {
+					if c, ok := is.Cond.(*ast.BinaryExpr); ok && c.Op == token.LAND {
+						l, okl := c.X.(*ast.BinaryExpr)
+						r, okr := c.Y.(*ast.BinaryExpr)
+						if okl && okr && l.Op == token.EQL && isIdent(l.X, "err") && isIdent(l.Y, "nil") &&
+							r.Op == token.LSS && isIdent(r.X, cnt.Name) && isIdent(r.Y, "n") && len(is.Body.List) == 1 {
+							if b, ok := is.Body.List[0].(*ast.AssignStmt); ok && b.Tok == token.ASSIGN && len(b.Lhs) == 2 && len(b.Rhs) == 2 &&
+								isIdent(b.Lhs[0], "n") && isIdent(b.Lhs[1], "err") && isIdent(b.Rhs[0], cnt.Name) && isShortWrite(b.Rhs[1]) {
+								found = true
+							}
+						}
+					}
+				}
+			}
+			if !found {
+				bad = fmt.Errorf("unionFile.go UnionFile.%s: the base call keeps its count in %s, but it is not followed by `if err == nil && %s < n { n, err = %s, io.ErrShortWrite }`", method, cnt.Name, cnt.Name, cnt.Name)
+				continue
+			}
+			shape = 1
+		}
+		return true
+	})
+	if bad != nil {
+		return 0, bad
+	}
+	if seen != 1 || shape < 0 {
+		return 0, fmt.Errorf("unionFile.go UnionFile.%s: expected exactly one statement assigning f.Base.%s(...), found %d", method, method, seen)
+	}
+	if shape == 0 {
+		// the old shape must not mention io.ErrShortWrite anywhere else
+		mention := false
+		ast.Inspect(fd, func(n ast.Node) bool {
+			if e, ok := n.(ast.Expr); ok && isShortWrite(e) {
+				mention = true
+			}
+			return true
+		})
+		if mention {
+			return 0, fmt.Errorf("unionFile.go UnionFile.%s: discards the base's count but mentions io.ErrShortWrite: unknown shape", method)
+		}
+	}
+	return shape, nil
+}
+
+func unionWriteConsts(repo string, add func(string, int64, string)) error {
+	p, err := parseSrc(repo, "unionFile.go")
+	if err != nil {
+		return err
+	}
+	sum, txt := int64(0), ""
+	for _, m := range []string{"Write", "WriteAt", "WriteString"} {
+		fd := p.fn("UnionFile", m)
+		if fd == nil || fd.Body == nil {
+			return fmt.Errorf("unionFile.go: UnionFile.%s not found", m)
+		}
+		v, err := unionWriteShape(fd, m)
+		if err != nil {
+			return err
+		}
+		sum += v
+		txt += fmt.Sprintf(" %s=%d", m, v)
+	}
+	if sum != 0 && sum != 3 {
+		return fmt.Errorf("unionFile.go: UnionFile.Write/WriteAt/WriteString disagree on checking the base's byte count (%s ): the model has one switch for the three", txt)
+	}
+	add("unionfile_write_checks_base_count", sum/3, "unionFile.go UnionFile.Write/WriteAt/WriteString: 1 iff each compares the base handle's byte count with the layer's and returns (base count, io.ErrShortWrite) when it is smaller and no error was reported")
+	return nil
+}
 
 func copyFileConsts(repo string, add func(string, int64, string)) error {
 	p, err := parseSrc(repo, "unionFile.go")
